@@ -107,7 +107,15 @@ func (e *Eval) compile(node ast.Node) error {
 
 		// sort them
 		sort.Slice(keys, func(i, j int) bool {
-			return keys[i].String() < keys[j].String()
+			ki, kj := keys[i].String(), keys[j].String()
+			if ki != kj {
+				return ki < kj
+			}
+
+			// The same key given twice: order the pairs by
+			// their values, so that we always compile the
+			// same program.
+			return node.Pairs[keys[i]].String() < node.Pairs[keys[j]].String()
 		})
 
 		// for each key + value compile them
